@@ -4,7 +4,7 @@
 Require Extraction.
 Require Import ExtrOcamlBasic.
 From MOC.Base Require Import RangeSet.
-From MOC.Model Require Import Qty Ops1D Query Expr Build Repr Serial ST STSerial TextValid Store.
+From MOC.Model Require Import Qty Ops1D Query Expr Build Repr Serial ST STSerial TextValid Store MocSet.
 Extraction Language OCaml.
 Extraction "moc_model.ml"
   RangeSet.covb RangeSet.canonb RangeSet.canon_of
@@ -20,4 +20,5 @@ Extraction "moc_model.ml"
   ST.obs_moc ST.r2d_okb ST.cov2b ST.tfold ST.sfold ST.space_cell ST.st_op_spec
   STSerial.encode2 STSerial.decode2
   TextValid.text_accept TextValid.text_depth TextValid.text_decode
-  Store.exec Store.run Store.empty_slab.
+  Store.exec Store.run Store.empty_slab
+  MocSet.exec MocSet.extract MocSet.n_of_n128.
